@@ -12,7 +12,7 @@ static rc::Gen<Case> genCase() {
         size_t n = *rc::gen::inRange<size_t>(0, 501);
         size_t size = c.size;
         c.ops = *rc::gen::container<std::vector<Op>>(n, rc::gen::exec([size]() {
-            int k = *rc::gen::weightedElement<int>({{6, ADD}, {5, CONSUME}, {4, ATMOST}, {3, REWIND}, {1, RESET}, {1, CLEAR}, {1, REPEAT}, {1, QUERY}, {1, SETBAD}});
+            int k = *rc::gen::weightedElement<int>({{6, ADD}, {5, CONSUME}, {4, ATMOST}, {3, REWIND}, {1, RESET}, {1, CLEAR}, {1, REPEAT}, {1, QUERY}, {1, SETBAD}, {2, SELFADD}});
             // operands: mostly small, sometimes around the size
             size_t n = *rc::gen::weightedOneOf<size_t>({{6, vprc::uni<size_t>(0, 8)}, {2, vprc::uni<size_t>(0, size + 1)}, {size > 64 ? 3 : 0, rc::gen::map(vprc::uni<size_t>(0, 4), [size](size_t d) { return size / 2 + d; })}, {(k == CONSUME || k == ATMOST) ? 1 : 0, rc::gen::map(vprc::uni<size_t>(0, 70), [](size_t d) { return (size_t)SIZE_MAX - d; })}});
             return Op{k, n};
@@ -36,6 +36,7 @@ static std::string oracle(const Case &c) {
         case REWIND: if (m.off > 0 && m.off < m.used()) rewinds++; m.content.erase(m.content.begin(), m.content.begin() + (long)m.off); m.off = 0; break;
         case RESET: case CLEAR: m.content.clear(); m.off = 0; break;
         case REPEAT: m.off = 0; break;
+        case SELFADD: { size_t cnt = op.n / 2, from = (op.n % 2) ? 0 : m.off; if (cnt && from + cnt <= m.used() && cnt <= m.avail()) m.content.insert(m.content.end(), cnt, 1); } break;
         }
     }
     nt = rewinds > 0 || fills > 0;
